@@ -1,6 +1,6 @@
 (* Locks/PropsKill.v — C06 under the session's kill flag (model: Locks/Kill.v) *)
 From Coq Require Import List NArith ZArith Bool Lia.
-From Verif Require Import Locks.Model Locks.ProofsBase Locks.ProofsInv Locks.ProofsMain Locks.Kill Locks.Props.
+From Verif Require Import Locks.Model Locks.ProofsBase Locks.ProofsInv Locks.ProofsMain Locks.Kill Locks.ProofsTop Locks.ProofsKill Locks.Props.
 Import ListNotations.
 Open Scope N_scope.
 
@@ -11,10 +11,15 @@ Open Scope N_scope.
    release request that does not go out is dropped (its error is only logged).  With the table of the code, for ANY kill
    schedule: every release task that runs sends its request, the run is a run of the plain model, and a finished, drained
    transaction leaves no lock.  (Seeded change C06-9 swaps PessimisticLock and PessimisticRollback in the table:
-   [C06_kill_table_matters].) *)
+   [C06_kill_table_matters].)
+   What these two theorems are: [C06_release_requests_ignore_kill] is a fact about the hand-transcribed table (three
+   cases by computation); [C06_no_leftover_under_any_kill_schedule] is C06_no_leftover transported along
+   [krun = run . map kill_ev] — a corollary, not a new argument.  The tie to the code is the check: the kill programs
+   d100-d108 / random kills, and the table differential (the driver reads IsInterruptible of every command type of the
+   client on every run and the check compares it with the extracted [interruptible]).  Scripts: ProofsKill.v. *)
 Theorem C06_release_requests_ignore_kill :
   forall (killed : bool) (t : task), goes_out interruptible killed (task_cmd t) = true.
-Proof. intros. apply release_goes_out. exact code_table_ok. Qed.
+Proof. exact C06_release_requests_ignore_kill_proof. Qed.
 Print Assumptions C06_release_requests_ignore_kill.
 
 Theorem C06_no_leftover_under_any_kill_schedule :
@@ -22,12 +27,7 @@ Theorem C06_no_leftover_under_any_kill_schedule :
   let s := krun interruptible (init p) kevs in
   (s = run (init p) (map (kill_ev interruptible) kevs) /\ wf_run (init p) (map (kill_ev interruptible) kevs)) /\
   (valid s = false -> tasks s = [] -> store s = []).
-Proof.
-  intros p kevs H s.
-  assert (E : s = run (init p) (map (kill_ev interruptible) kevs)) by (apply krun_run; exact code_table_ok).
-  assert (W : wf_run (init p) (map (kill_ev interruptible) kevs)) by (apply kwf_wf; [exact code_table_ok|exact H]).
-  split; [split; auto|]. rewrite E. apply C06_no_leftover. exact W.
-Qed.
+Proof. exact C06_no_leftover_under_any_kill_schedule_proof. Qed.
 Print Assumptions C06_no_leftover_under_any_kill_schedule.
 
 (* d100 / d101 of the check: Rollback of a killed session; the background rollback of a failed call runs killed — clean
@@ -45,6 +45,5 @@ Example C06_kill_table_matters :
   (* an interrupted LockKeys locks nothing and flags nothing; the interrupted Commit fails and cleans up *)
   flags (krun interruptible (init true) (firstn 1 (nth 2 killed_runs []))) = [].
 Proof.
-  split; [|vm_compute; auto].
-  repeat constructor; vm_compute; repeat split; intros; try discriminate; auto.
+  split; [|vm_compute; auto]. kill_runs_solve.
 Qed.
